@@ -21,6 +21,7 @@ import (
 	"strings"
 
 	"com.tuntun.rangers/node/src/common"
+	crypto "com.tuntun.rangers/node/src/eth_crypto"
 	"com.tuntun.rangers/node/src/eth_tx"
 	"com.tuntun.rangers/node/src/executor"
 	"com.tuntun.rangers/node/src/middleware"
@@ -28,6 +29,7 @@ import (
 	"com.tuntun.rangers/node/src/middleware/db"
 	"com.tuntun.rangers/node/src/middleware/types"
 	"com.tuntun.rangers/node/src/storage/account"
+	"com.tuntun.rangers/node/src/storage/rlp"
 	"com.tuntun.rangers/node/src/utility"
 	"verif/harness/hx"
 )
@@ -619,6 +621,10 @@ func main() {
 	consumerInventory(res, cs)
 	consumerCases(a, rng, res, cs)
 
+	// ---- (8) contract data: JSON spellings of the amount; (9) admission of wrapped transactions ----
+	jsonSpellingCases(a, rng, res, cs)
+	admissionCases(a, rng, res)
+
 	// strings outside the property's grammar that StrToBigInt nevertheless accepts (reported as a note, not a violation)
 	{
 		r1, e1, _ := safeParse("Inf", 18)
@@ -1072,3 +1078,261 @@ func consumerCases(a hx.Args, rng *hx.Rng, res *hx.Result, cs *hx.Cases) {
 }
 
 func mk2(s string) *big.Int { n, _ := new(big.Int).SetString(s, 10); return n }
+
+// denoted gives, with integer arithmetic only, the amount in 18-decimal units that the decimal text
+// -?digits[.digits][(e|E)[+-]digits] denotes, truncated toward zero; ok=false if the text has another shape.
+func denoted(tok string) (v *big.Int, ok bool) {
+	t := tok
+	neg := false
+	if strings.HasPrefix(t, "-") {
+		neg, t = true, t[1:]
+	}
+	exp := 0
+	if i := strings.IndexAny(t, "eE"); i >= 0 {
+		e := t[i+1:]
+		t = t[:i]
+		sign := 1
+		if strings.HasPrefix(e, "+") {
+			e = e[1:]
+		} else if strings.HasPrefix(e, "-") {
+			sign, e = -1, e[1:]
+		}
+		if e == "" || len(e) > 4 || strings.Trim(e, "0123456789") != "" {
+			return nil, false
+		}
+		fmt.Sscan(e, &exp)
+		exp *= sign
+	}
+	ip, fp := t, ""
+	if i := strings.Index(t, "."); i >= 0 {
+		ip, fp = t[:i], t[i+1:]
+	}
+	if ip+fp == "" || strings.Trim(ip+fp, "0123456789") != "" {
+		return nil, false
+	}
+	m, _ := new(big.Int).SetString(ip+fp, 10)
+	sc := exp - len(fp) + 18
+	if sc >= 0 {
+		m.Mul(m, pow10(sc))
+	} else {
+		m.Quo(m, pow10(-sc))
+	}
+	if neg {
+		m.Neg(m)
+	}
+	return m, true
+}
+
+// jsonSpellingCases: the same amount spelled in the contract data JSON as a string and as a bare JSON number
+// (integer, 1..20 fractional digits, exponent form, huge), with and without the other fields, and wrong types.
+// Contract: a spelling is either refused as a whole or the amount decodeContractData hands on is exactly the
+// decimal the JSON text denotes (computed here from the token text with big integers, never via float64).
+func jsonSpellingCases(a hx.Args, rng *hx.Rng, res *hx.Result, cs *hx.Cases) {
+	type spelling struct{ class, tok string }
+	nz := func(n int) string {
+		d := []byte(randDigits(rng, n))
+		d[n-1] = byte('1' + rng.Intn(9))
+		return string(d)
+	}
+	var toks []spelling
+	toks = append(toks, spelling{"integer", "0"}, spelling{"integer", "1"}, spelling{"integer", "5"}, spelling{"integer", "300000"},
+		spelling{"integer", "9007199254740993"}, spelling{"integer", "123456789012345678901234567890"},
+		spelling{"decimal-18", "1.000000000000000001"}, spelling{"decimal-18", "123456789.123456789123456789"}, spelling{"decimal-01", "1.5"}, spelling{"decimal-04", "0.0001"},
+		spelling{"exponent", "1e5"}, spelling{"exponent", "1.5E-3"}, spelling{"exponent", "1e-18"}, spelling{"exponent", "12345678901234567e-17"}, spelling{"exponent", "1E+2"},
+		spelling{"huge", "1" + strings.Repeat("0", 59)}, spelling{"huge", "115792089237316195423570985008687907853269984665640564039457.584007913129639935"}, spelling{"huge", "1e40"},
+		spelling{"negative", "-1"}, spelling{"negative", "-0.5"})
+	reps := 2
+	if a.Tier == "thorough" {
+		reps = 20
+	}
+	for r := 0; r < reps; r++ {
+		for fl := 1; fl <= 20; fl++ {
+			if r > 0 && rng.Intn(2) == 0 {
+				continue
+			}
+			ip := randDigits(rng, 1+rng.Intn(12))
+			ip = strings.TrimLeft(ip, "0") // JSON numbers have no leading zeros
+			if ip == "" {
+				ip = "0"
+			}
+			toks = append(toks, spelling{fmt.Sprintf("decimal-%02d", fl), ip + "." + nz(fl)})
+		}
+		toks = append(toks, spelling{"integer", strings.TrimLeft(randDigits(rng, 1+rng.Intn(40)), "0") + "7"})
+	}
+	run := func(kind, class, tok, doc string, wantAccept int, want *big.Int) { // wantAccept: 1 must accept, 0 either, -1 must refuse
+		var gas uint64
+		var got *big.Int
+		var msg string
+		if p := func() (p interface{}) {
+			defer func() { p = recover() }()
+			gas, got, _, msg = executor.VerifDecodeContractData(doc)
+			return nil
+		}(); p != nil {
+			res.Violate("C18/panic:contract-data", fmt.Sprint(p), doc)
+			return
+		}
+		_ = gas
+		accepted := msg == "" && got != nil
+		key := "C18/contract-data:" + kind + ":" + class
+		outcome := "refused"
+		if accepted {
+			outcome = "accepted"
+			if want == nil || got.Cmp(want) != 0 {
+				res.Violate(key, fmt.Sprintf("contract data %s is accepted and hands %v to the EVM; the JSON text %s denotes %v", doc, got, tok, want), map[string]interface{}{"data": doc})
+			}
+			if kind == "json-string" && len(tok) < 200 {
+				cs.Add(fmt.Sprintf("CParse %s 18%%Z (OOk %s)", hx.CoqHex([]byte(tok)), coqBig(got)), map[string]interface{}{"fn": "decodeContractData: transferValue as JSON string", "s": tok, "obs": got.String()})
+			}
+		} else if wantAccept == 1 {
+			res.Violate(key, fmt.Sprintf("contract data %s is refused (%s); the node's own spelling must be accepted", doc, msg), map[string]interface{}{"data": doc})
+		}
+		res.Count("contract-data-"+kind+"-"+outcome, "J|"+doc, want != nil && want.Sign() != 0)
+	}
+	for i, sp := range toks {
+		want, ok := denoted(sp.tok)
+		if !ok {
+			continue
+		}
+		wrap := func(field string) string {
+			switch i % 3 {
+			case 0:
+				return "{" + field + "}"
+			case 1:
+				return `{"gasLimit":"300000",` + field + `,"abiData":"0x1234"}`
+			}
+			return `{"abiData":"0x","gasPrice":"1000000000",` + field + `,"gasLimit":"21000"}`
+		}
+		acc := 0
+		if !strings.HasPrefix(sp.tok, "-") && !strings.ContainsAny(sp.tok, "eE") {
+			acc = 1 // plain decimal strings are what the node writes and must be accepted
+		}
+		run("json-string", sp.class, sp.tok, wrap(`"transferValue":"`+sp.tok+`"`), acc, want)
+		run("json-number", sp.class, sp.tok, wrap(`"transferValue":`+sp.tok), 0, want)
+	}
+	// the other fields as bare numbers, the amount as the node spells it
+	five := mk2("5000000000000000000")
+	run("json-number", "gaslimit-number", "5.000000000000000000", `{"gasLimit":300000,"transferValue":"5.000000000000000000"}`, 0, five)
+	run("json-number", "gasprice-number", "5.000000000000000000", `{"gasPrice":1e9,"gasLimit":"21000","transferValue":"5.000000000000000000"}`, 0, five)
+	// wrong types and null: refused, or an amount of 0 (null = absent)
+	for _, t := range []string{"true", "false", "null", "[]", "[1]", "{}", `{"a":1}`, `["1"]`} {
+		run("json-number", "wrong-type", t, `{"gasLimit":"21000","transferValue":`+t+`}`, 0, big.NewInt(0))
+	}
+}
+
+// admissionCases: for signed raw ethereum transactions, the honest wrapper (eth_tx.ConvertTx) and forged
+// wrappers (same Hash / ExtraData, Data JSON with transferValue or gas fields rewritten) are shown to
+// TxPool.VerifyTransaction in the orders [forged], [honest, forged], [honest, honest, forged]; whatever
+// verification accepts is decoded by the contract executor and must carry exactly the signed raw value.
+func admissionCases(a hx.Args, rng *hx.Rng, res *hx.Result) {
+	defer func() {
+		if p := recover(); p != nil {
+			res.Violate("C18/panic:admission", fmt.Sprint(p), "admissionCases")
+		}
+	}()
+	const height = 1
+	pool := service.GetTransactionPool()
+	signer := eth_tx.NewEIP155Signer(common.GetChainId(height))
+	key, err := crypto.HexToECDSA("b71c71a67e1177ad4e901695e1b4b9ee17ae16c6668d313eac2f96dbcda3f291")
+	if err != nil {
+		panic(err)
+	}
+	nonce := uint64(0)
+	wrap := func(value *big.Int) (*types.Transaction, bool) {
+		nonce++
+		raw, err := eth_tx.SignTx(eth_tx.NewTransaction(nonce, common.BytesToAddress(rng.Bytes(20)), value, 21000+uint64(rng.Intn(100000)), big.NewInt(int64(1+rng.Intn(1e9))), rng.Bytes(rng.Intn(20))), signer, key)
+		if err != nil {
+			return nil, false
+		}
+		encoded, err := rlp.EncodeToBytes(raw)
+		if err != nil {
+			return nil, false
+		}
+		sender, err := eth_tx.Sender(signer, raw)
+		if err != nil {
+			return nil, false
+		}
+		return eth_tx.ConvertTx(raw, sender, encoded), true
+	}
+	forge := func(genuine *types.Transaction, edit func(d *types.ContractData)) *types.Transaction {
+		var data types.ContractData
+		json.Unmarshal([]byte(genuine.Data), &data)
+		edit(&data)
+		b, _ := json.Marshal(data)
+		forged := *genuine
+		forged.Data = string(b)
+		return &forged
+	}
+	show := func(order string, step int, tx *types.Transaction, honest bool, value *big.Int) {
+		var verr error
+		if p := func() (p interface{}) {
+			defer func() { p = recover() }()
+			verr = pool.VerifyTransaction(tx, height)
+			return nil
+		}(); p != nil {
+			res.Violate("C18/panic:admission", fmt.Sprint(p), tx.Data)
+			return
+		}
+		class := "admission-" + order
+		if honest {
+			class += "-honest"
+		} else {
+			class += "-forged"
+		}
+		if verr == nil {
+			class += "-accepted"
+			_, got, _, msg := executor.VerifDecodeContractData(tx.Data)
+			if msg != "" || got == nil || got.Cmp(value) != 0 {
+				res.Violate("C18/wrapped-tx-value:accepted-wrapper-differs",
+					fmt.Sprintf("order %s, step %d: verification accepts a wrapper (hash %s) whose data %s makes the executor call the EVM with %v (%q); the signed raw transaction carries %v", order, step, tx.Hash.String(), tx.Data, got, msg, value),
+					map[string]interface{}{"order": order, "step": step, "signed_value": value.String(), "data": tx.Data, "extraData": tx.ExtraData})
+			}
+		} else {
+			class += "-refused"
+			if honest {
+				res.Note("admission: an honest wrapper was refused: " + verr.Error())
+			}
+		}
+		res.Count(class, fmt.Sprintf("A|%s|%d|%s|%s", order, step, tx.Hash.String(), tx.Data), true)
+	}
+	values := []*big.Int{mk2("5000000000000000000"), big.NewInt(1), mk2("1000000000000000001"), new(big.Int).Sub(two256, big.NewInt(1)), big.NewInt(0)}
+	n := 6
+	if a.Tier == "thorough" {
+		n = 60
+	}
+	for i := 0; i < n; i++ {
+		values = append(values, new(big.Int).SetBytes(rng.Bytes(1+rng.Intn(32))))
+	}
+	edits := []func(v *big.Int) func(d *types.ContractData){
+		func(v *big.Int) func(d *types.ContractData) {
+			return func(d *types.ContractData) { d.TransferValue = utility.BigIntToStr(new(big.Int).Mul(new(big.Int).Add(v, big.NewInt(1)), big.NewInt(100))) }
+		},
+		func(v *big.Int) func(d *types.ContractData) {
+			return func(d *types.ContractData) { d.TransferValue = utility.BigIntToStr(new(big.Int).Add(v, big.NewInt(1))) }
+		},
+		func(v *big.Int) func(d *types.ContractData) { return func(d *types.ContractData) { d.TransferValue = "" } },
+		func(v *big.Int) func(d *types.ContractData) {
+			return func(d *types.ContractData) { d.GasLimit = "900000000"; d.TransferValue = "0." + strings.Repeat("0", 17) + "7" }
+		},
+	}
+	for i, v := range values {
+		edit := edits[i%len(edits)](v)
+		for _, order := range []string{"F", "HF", "HHF"} {
+			honest, ok := wrap(v) // a fresh raw transaction per order: nothing about it has been verified before
+			if !ok {
+				res.Note("admission: could not sign/wrap a raw transaction")
+				return
+			}
+			forged := forge(honest, edit)
+			if forged.Data == honest.Data {
+				continue
+			}
+			for step, c := range order {
+				if c == 'H' {
+					show(order, step, honest, true, v)
+				} else {
+					show(order, step, forged, false, v)
+				}
+			}
+		}
+	}
+}
